@@ -458,6 +458,28 @@ func tryReplay(eng *Engine, o *Obligation, info map[string]any, repo string) boo
 		s.close()
 	}
 	defer s.close()
+	// replay adapters: inputs whose meaning is hidden behind an assumed (extern) contract are
+	// replaced by a concrete valid instance, see /verif/replay/adapters.json
+	var adapters map[string]struct {
+		Inputs map[string]string `json:"inputs"`
+		Why    string            `json:"why"`
+	}
+	readJSON(filepath.Join(verifRoot, "replay", "adapters.json"), &adapters)
+	if ad, ok := adapters[u.name]; ok {
+		for i, in := range u.inputs {
+			if lit, ok := ad.Inputs[in.Name]; ok {
+				argLits[i] = lit
+				inputs[in.Name] = lit + "   (adapter: " + ad.Why + ")"
+				var keep []string
+				for _, p := range x.pins {
+					if !strings.Contains(p, in.T.S) {
+						keep = append(keep, p)
+					}
+				}
+				x.pins = keep
+			}
+		}
+	}
 	info["model_inputs"] = inputs
 	if len(x.errs) > 0 {
 		info["replay"] = "model not replayable: " + strings.Join(x.errs, "; ")
